@@ -38,7 +38,7 @@ def obligations(tier):
                         config={'nl': 2, 'nr': 2, 'kind': kind, 'mode': 'card', 'expect': 'one_to_one', 'K': 3, 'W': 0, 'ktype': 'int', 'spec': 'name', 'nones': False, 'K2const': q},
                         budget=200 if q else 900, bounds='2x2 rows, 3-component key', smoke=joinlib.smoke(2, 2, 2, 0)))
         for ex in ('one_to_one', 'many_to_one', 'one_to_many'):
-            for nl, nr in ((1, 2), (2, 1)):
+            for nl, nr in ((1, 2), (2, 1), (2, 0), (0, 2)):
                 obs.append(dict(name='card[%s,%s,%dx%d]' % (kind, ex, nl, nr), fn='h_join',
                                 config={'nl': nl, 'nr': nr, 'kind': kind, 'mode': 'card', 'expect': ex, 'K': 1, 'W': 1, 'ktype': 'int', 'spec': 'name'},
                                 budget=90 if q else 300, bounds='%dx%d rows, all key patterns' % (nl, nr), smoke=joinlib.smoke(nl, nr)))
